@@ -1,4 +1,5 @@
-"""C01 - snapshot isolation, write-write exclusion, insert semantics, locking reads, external consistency."""
+"""C01 - snapshot isolation, write-write exclusion, insert semantics, locking reads, external consistency.
+Families: c01 / c06 on mocktikv (two-phase commit), c01uni = the c01 workload on unistore with async commit and 1PC requested by most transactions."""
 from checks.txn_common import run_txn_check
 def run(tier, seed, replay=None):
-    return run_txn_check("C01", [("c01", 300, 4000), ("c06", 250, 3000)], tier, seed, replay)
+    return run_txn_check("C01", [("c01", 300, 4000), ("c06", 250, 3000), ("c01uni", 120, 2500)], tier, seed, replay)
